@@ -126,6 +126,12 @@ structure Obs where
   /-- `inspect.getsource` of every generated method recompiles to the running code object and the
       cache entry under its filename holds that source (observed; part B's model is about the loop) -/
   sourceOk  : Bool
+  /-- the class built from user objects (Factory / Converter instances, validator, key, repr, hook
+      callables) that are shared between its fields and were used before, under other field names, by
+      earlier classes behaves like its twin built from fresh objects.  A `Case` carries no object
+      identities and no history: the model is a function of the field specification alone, which is
+      what the property says the code must be. -/
+  sharedOk  : Bool
   deriving DecidableEq, Repr, FromJson, ToJson, Inhabited
 
 /-! ### globals as ordered merges -/
@@ -369,6 +375,7 @@ def model (c : Case) : Obs :=
   { defErr := "", table := table c, injected := injected c,
     poisonOk := !(table c).any (fun e => e.obj.kind == .module),
     neutralOk := !(helperClash c || paramShadows c),
-    sourceOk := true }
+    sourceOk := true,
+    sharedOk := true }
 
 end Attrs.C17
